@@ -520,7 +520,7 @@ func c08backendRun(kind string, seed uint64) []string {
 				tileType: 2, tileComp: uint8(1 + tag%4), meta: fmt.Sprintf(`{"v":%d}`, tag), minZoom: 0, maxZoom: zmax, pad: pad})
 		}
 		a := build((6 - tag) * 200) // later versions are shorter: a read at an older version's offsets runs past the end of the file
-		if seed%2 == 0 { // every version of this archive has the same file size (the layouts and the bytes still differ)
+		if seed%2 == 0 {            // every version of this archive has the same file size (the layouts and the bytes still differ)
 			if n := len(build(0).Bytes); n < 3000 {
 				a = build(3000 - n)
 			}
